@@ -224,6 +224,69 @@ def auto_recipe(name: str) -> Callable[[Any, Any, Any], Any] | None:
     return recipe
 
 
+def run_backlog(framing: str, blocked: bool, first: Any = ("partial", 1000), drain: Any = ("rate", 7)) -> dict[str, Any]:
+    """Every public method that writes without awaiting anything, called one after the other on one live session.  blocked=False: the device reads
+    normally and what it received is attributed per method (the reference).  blocked=True: the device's window is closed for all the calls (the first
+    write of the stall is taken partially or not at all, per `first`), then it reads again slowly (`drain`); returns the whole received sequence."""
+    from aioesphomeapi import APIClient
+
+    noise = framing == "noise"
+    out: dict[str, Any] = {"framing": framing, "blocked": blocked, "calls": [], "received": [], "raised": []}
+    R = recipes()
+    R["subscribe_logs/defaults"] = lambda c, s, r: c.subscribe_logs(lambda m: r("log", m))
+    names = [n for n in sorted(R) if not inspect.iscoroutinefunction(R[n]) and not inspect.iscoroutinefunction(getattr(APIClient, n.split("/")[0], None))
+             and n.split("/")[0] not in NOT_SENDING]
+    with Sim() as sim:
+        # (a passive device: it answers nothing but the session set-up, so what the client sends does not depend on when the device got to read)
+        dev = sim.device(DeviceConfig(noise_psk=PSK if noise else None))
+        kw = {"noise_psk": base64.b64encode(PSK).decode()} if noise else {}
+        cli = sim.client(password=None, keepalive=1e5, **kw)
+        c0 = sim.call("connect", lambda: cli.connect(on_stop=sim.on_stop_cb(), login=False))
+        sim.run(until=lambda: c0.done, max_time=sim.clock + 50)
+        if c0.outcome != "ok":
+            out["error"] = f"connect failed: {c0.exc!r}"
+            return out
+        dconn = dev.conn
+        events: list[Any] = []
+        n0 = len(dconn.received)
+        if blocked:
+            dconn.sock.send_fault = first
+            cli.send_voice_assistant_audio(b"\x05" * 3000)
+            dconn.sock.send_fault = "block"
+            n0 += 1        # (the filler is not part of the comparison)
+        for rnd in range(2):
+            for name in (names if rnd == 0 else names[::-1]):
+                n_rx = len(dconn.received)
+                try:
+                    r = R[name](cli, sim, lambda *a: events.append(a))
+                    if inspect.iscoroutine(r):
+                        r.close()
+                        continue
+                except Exception as e:  # noqa: BLE001
+                    out["raised"].append((name, repr(e)))
+                    continue
+                if not blocked:
+                    sim.run_for(0.01)
+                    out["calls"].append((name, [(x["name"], x["id"], x["payload"]) for x in dconn.received[n_rx:]]))
+                else:
+                    out["calls"].append((name, None))
+        if blocked:
+            out["queued_bytes"] = sim.transports[-1].get_write_buffer_size()
+            dconn.sock.send_fault = drain
+            for _ in range(3000):
+                sim.small_step()
+                if sim.transports[-1].get_write_buffer_size() == 0:
+                    break
+            dconn.sock.send_fault = None
+        sim.run_for(0.5)
+        out["received"] = [(x["name"], x["id"], x["payload"]) for x in dconn.received[n0:]]
+        out["decode_errors"] = list(dconn.decode_errors)
+        out["stopped"] = list(sim.on_stop_calls) if hasattr(sim, "on_stop_calls") else []
+        out["connected"] = bool(cli._connection is not None and cli._connection.is_connected)  # noqa: SLF001
+        out["harness_errors"] = list(sim.harness_errors)
+    return out
+
+
 def public_methods() -> list[str]:
     from aioesphomeapi import APIClient
 
